@@ -46,7 +46,11 @@ def load_configs():
 
 # configurations whose temporal properties (termination, success) are model-checked under fairness
 LIVE_CONFIGS = ("ack", "ack-lim3", "imm", "drop2", "drop2-imm", "unack", "unackc", "cancelS", "cancelR", "cancelS-unackc", "cancelR-unackc",
+                "cancelS-black", "cancelR-black",
                 "black", "black-unackc", "black-imm", "to-grid-a", "to-grid-b", "defd", "immd")
+
+
+LIVE_QUICK = ("ack", "drop2", "imm", "unackc", "black", "black-imm", "cancelS-black")
 
 
 def model(conf, tier, workdir, workers):
@@ -116,6 +120,41 @@ def liveness(prop, conf, tier, workdir):
     return d
 
 
+def timer_lemma(workdir):
+    """Unbounded safety of Timer.tla (every timeout >= 1, every limit >= 1, ticks of any length): the inductive invariant and
+    the post-conditions of spec/TimerInd.tla discharged by Apalache.  A lemma about the specification of the counter
+    (bound to timer.rs by the conformance of every recorded timer snapshot); cached by the hash of the two modules."""
+    import hashlib
+    import subprocess
+    h = hashlib.sha256()
+    for fn in ("Timer.tla", "TimerInd.tla"):
+        with open(os.path.join(common.VERIF, "spec", fn), "rb") as f:
+            h.update(f.read())
+    cp = os.path.join(CACHE, "apalache-timer-%s.json" % h.hexdigest()[:16])
+    os.makedirs(CACHE, exist_ok=True)
+    if os.path.exists(cp):
+        with open(cp) as f:
+            return json.load(f)
+    runs = [("base", ["--init=Init", "--inv=IndInv", "--length=0"], True),
+            ("step", ["--init=IndInit", "--inv=IndInv", "--length=1"], True),
+            ("post", ["--init=IndInitNew", "--inv=Post", "--length=1"], True),
+            ("non-vacuity (must fail)", ["--init=Init", "--inv=NeverFull", "--length=3"], False)]
+    out = {"tool": "apalache-mc 0.58", "module": "spec/TimerInd.tla", "obligations": []}
+    for name, args, expect_ok in runs:
+        t0 = time.time()
+        p = subprocess.run(["timeout", "900", "apalache-mc", "check", "--cinit=ConstInit"] + args +
+                           ["--out-dir=" + os.path.join(workdir, "apalache"), "TimerInd.tla"],
+                           cwd=os.path.join(common.VERIF, "spec"), stdout=subprocess.PIPE, stderr=subprocess.STDOUT, text=True)
+        ok = "EXITCODE: OK" in p.stdout
+        err = "Checker has found an error" in p.stdout
+        if ok != expect_ok or (not expect_ok and not err):
+            raise common.ToolError("Apalache: obligation '%s' of TimerInd.tla: unexpected outcome\n%s" % (name, p.stdout[-1500:]))
+        out["obligations"].append({"name": name, "args": " ".join(args), "outcome": "holds" if ok else "fails as it must", "wall_s": round(time.time() - t0, 1)})
+    with open(cp, "w") as f:
+        json.dump(out, f)
+    return out
+
+
 def configs_for(prop):
     return [c for c in load_configs() if prop in c["props"]]
 
@@ -163,7 +202,7 @@ def continuations(prop, conf, name, all_scripts, drifts, c, ncontin, log):
 
 def collect(prop, tier, seed, c, only=None):
     """runs the pipeline for `prop`, registers violations / known findings on the Check `c`, returns the coverage dict"""
-    confs = [x for x in configs_for(prop) if only is None or x["name"] in only]
+    confs = [x for x in configs_for(prop) if (only is None or x["name"] in only) and tier in x.get("tiers", (tier,))]
     if not confs:
         raise common.ToolError("no model configuration serves %s" % prop)
     workers = 8
@@ -175,6 +214,11 @@ def collect(prop, tier, seed, c, only=None):
     # DRIFT policy (DESIGN.md 2.1): a configuration in which the code left the model is explored again with the
     # thorough bounds, looking for a real violation the quick bounds are too small to reach
     queue = [(conf, tier) for conf in confs]
+    kf0 = findings_for(prop)
+
+    def unknown(vs):
+        """violations that are not recorded findings"""
+        return [x for x in vs if not any(x["sig"] and x["sig"] == f["signature"] and x["tag"] in f["tags"] for f in kf0)]
     escalated = []
     candidates = []
     ncontin = [0]
@@ -182,10 +226,10 @@ def collect(prop, tier, seed, c, only=None):
     live = []
     while queue:
         conf, ctier = queue.pop(0)
-        if viols:
+        if unknown(viols):
             break               # a violation on the real code has been found: report it without exploring the rest
         m = model(conf, ctier, os.path.join(c.work, "model"), workers)
-        if prop in ("C02", "C03") and ctier == tier and conf["name"] in LIVE_CONFIGS:
+        if prop in ("C02", "C03") and ctier == tier and conf["name"] in (LIVE_QUICK if tier == "quick" else LIVE_CONFIGS):
             lv = liveness(prop, conf, ctier, os.path.join(c.work, "model"))
             if lv:
                 live.append({k: lv[k] for k in lv if k != "tail"})
@@ -212,7 +256,7 @@ def collect(prop, tier, seed, c, only=None):
         drifts += st["drift"]
         # DRIFT policy, step 1 (DESIGN.md 2.1): drift-directed continuation - TLC explores the model from the state the
         # real code is in after a drifting step; its counterexamples are replayed on the real code and judged there
-        if st["drift"] and not mine and not viols and ncontin[0] < 12:
+        if st["drift"] and not unknown(mine) and not unknown(viols) and ncontin[0] < 12:
             found = continuations(prop, conf, name, all_scripts, st["drift"], c, ncontin, contin_log)
             if found:
                 v2, st2 = pipe.run_scripts(found, os.path.join(c.work, "replay-" + name + "~contin"), shards=2)
@@ -227,9 +271,9 @@ def collect(prop, tier, seed, c, only=None):
                 common.log("%s %s: %d continuation(s) of drifting executions replayed on the real code, %d violation(s) of this property" % (
                     prop, name, len(found), len(mine)))
         # step 2 (after the pass, see below): candidates for a second exploration with the thorough bounds
-        if st["drift"] and not mine and ctier == "quick" and ctier == tier and conf["faults"][1] > conf["faults"][0]:
+        if st["drift"] and not unknown(mine) and ctier == "quick" and ctier == tier and conf["faults"][1] > conf["faults"][0]:
             candidates.append((len(st["drift"]) / max(st["events"], 1), m["states"], conf))
-        if not queue and candidates and not viols and not escalated:
+        if not queue and candidates and not unknown(viols) and not escalated:
             # the configurations in which the code left the model most often, cheapest first among equals: at most 3
             candidates.sort(key=lambda x: (-round(x[0], 2), x[1]))
             for ratio, _, cf in candidates[:3]:
@@ -251,7 +295,7 @@ def collect(prop, tier, seed, c, only=None):
             prop, name, m["states"], len(scripts), st["events"], len(mine), len(st["drift"])))
 
     # ---- Level D: the same monitor and conformance check on executions of real Daemons
-    rp, dsc = d_scenarios(prop, tier, seed, os.path.join(c.work, "dplans")) if not viols else (None, [])
+    rp, dsc = d_scenarios(prop, tier, seed, os.path.join(c.work, "dplans")) if not unknown(viols) else (None, [])
     dres = dlevel.run(dsc, os.path.join(c.work, "d"), shards=14) if dsc else None
     dscen_by_id = {s["id"]: s for s in dsc}
     if dres:
@@ -305,6 +349,7 @@ def collect(prop, tier, seed, c, only=None):
         "escalated_configs": escalated,
         "drift_continuations": contin_log,
         "liveness_on_the_model": live,
+        "unbounded_timer_lemma": timer_lemma(os.path.join(c.work, "model")) if prop in ("C17", "C03") else None,
         "property_tags": sorted(t for t in TAGS if t.startswith(prop + ":")),
         "level_d": None if not dres else {"fault_plans_from_tlc": rp.distinct, "daemon_scenarios": dres["scenarios"], "transactions_validated": dres["runs"],
                                           "events_validated": dres["events"], "daemon_events": dres["devents"], "drift_steps": len(dres["drift"]),
